@@ -41,3 +41,20 @@ Proof.
   rewrite <- (validate_view c'), Vw, (validate_view c), V. reflexivity.
 Qed.
 Print Assumptions C08_emitted_is_accepted.
+
+(** the JSON gates *)
+From PSA Require Import Json JsonCodec JsonCross FormatProofs.
+Theorem C08_json_gates : forall (c : claims) (j : json),
+  (validate spec_ccfg c <> Ok tt -> validate_and_encode_json spec_ccfg W c = None) /\
+  (validate spec_ccfg c = Ok tt -> validate_and_encode_json spec_ccfg W c = encode_json W c) /\
+  (forall c', decode_and_validate_json spec_ccfg W j = DOk c' -> decode_json spec_ccfg W j = DOk c' /\ validate spec_ccfg c' = Ok tt) /\
+  (forall c', decode_json spec_ccfg W j = DOk c' -> validate spec_ccfg c' = Ok tt -> decode_and_validate_json spec_ccfg W j = DOk c') /\
+  (forall c', decode_json spec_ccfg W j = DOk c' -> validate spec_ccfg c' <> Ok tt -> decode_and_validate_json spec_ccfg W j = DErr).
+Proof. exact json_gates. Qed.
+Print Assumptions C08_json_gates.
+
+Theorem C08_json_emitted_is_accepted : forall (c : claims) (j : json), builtin c -> texts_utf8 c ->
+  validate_and_encode_json spec_ccfg W c = Some j ->
+  exists c', decode_and_validate_json spec_ccfg W j = DOk c' /\ view c' = view c.
+Proof. exact json_emitted_is_accepted. Qed.
+Print Assumptions C08_json_emitted_is_accepted.
